@@ -5,6 +5,7 @@ import (
 	"fmt"
 	"os"
 	"runtime"
+	"sort"
 	"strings"
 	"testing"
 	"time"
@@ -47,21 +48,26 @@ type eStats struct {
 	readErrors      int
 	damageChecked   bool
 	damageDetected  bool
+	fileChecks      int
+	slowInfo        string
 	phaseForeground bool
 }
 
 var errHung = fmt.Errorf("call did not return in time")
+
+var dbgFS *vfs.FS // last storage used (debugging aid)
 
 // callCtl runs DB calls under a watchdog. In C08 mode a call that does not
 // return is merely inconclusive. In C09 mode the watchdog first heals the
 // storage (injected failures stop), allows the bound again, and then decides
 // with two goroutine dumps whether the call is in a stable blocked state.
 type callCtl struct {
-	strict  bool
-	fs      *vfs.FS
-	grace   time.Duration // time allowed while faults may still be active
-	bound   time.Duration // time allowed after the faults have healed
-	hangErr error
+	strict   bool
+	fs       *vfs.FS
+	grace    time.Duration // time allowed while faults may still be active
+	bound    time.Duration // time allowed after the faults have healed
+	hangErr  error
+	slowInfo string
 }
 
 func stacksOfDB() map[string]string {
@@ -119,10 +125,20 @@ func (cc *callCtl) do(what string, f func()) bool {
 		return true
 	}
 	a := stacksOfDB()
+	ops1 := cc.fs.Ops()
 	if wait(1500 * time.Millisecond) {
 		return true
 	}
 	b := stacksOfDB()
+	// no storage operation at all for a while although a call is pending and no failure is
+	// being injected: the DB is retrying without making progress (or is blocked)
+	if wait(3 * time.Second) {
+		return true
+	}
+	if cc.fs.Ops() == ops1 {
+		cc.hangErr = fmt.Errorf("%s did not return within %v after all injected failures had stopped, and the DB performed no storage operation for a further 4.5 s (blocked, or retrying without progress):\n%s", what, cc.bound, goroutineDump())
+		return false
+	}
 	stable := len(a) == len(b)
 	for id, s := range a {
 		if b[id] != s {
@@ -131,6 +147,22 @@ func (cc *callCtl) do(what string, f func()) bool {
 		if strings.HasPrefix(s, "[runnable") || strings.HasPrefix(s, "[running") || strings.HasPrefix(s, "[sleep") || strings.HasPrefix(s, "[syscall") || strings.HasPrefix(s, "[IO wait") {
 			stable = false
 		}
+	}
+	if !stable {
+		var diff []string
+		for id, x := range a {
+			if b[id] != x || strings.HasPrefix(x, "[runnable") || strings.HasPrefix(x, "[running") || strings.HasPrefix(x, "[sleep") {
+				if len(x) > 260 {
+					x = x[:260]
+				}
+				diff = append(diff, x)
+			}
+		}
+		sort.Strings(diff)
+		if len(diff) > 4 {
+			diff = diff[:4]
+		}
+		cc.slowInfo = what + " still running, not blocked: " + strings.Join(diff, " || ")
 	}
 	if stable {
 		cc.hangErr = fmt.Errorf("%s did not return within %v after all injected failures had stopped, and the DB is in a stable blocked state:\n%s", what, cc.bound, goroutineDump())
@@ -185,9 +217,14 @@ func allowedFor(issued []*model.Batch, k string) allowed {
 	return a
 }
 
-func runFaults(c *ECase) (eStats, error) { return runFaultsMode(c, false) }
+func runFaults(c *ECase) (eStats, error) { return runFaultsOpts(c, false, false) }
 
-func runFaultsMode(c *ECase, strict bool) (st eStats, err error) {
+func runFaultsMode(c *ECase, strict bool) (eStats, error) { return runFaultsOpts(c, strict, false) }
+
+// runFaultsOpts: strict = C09 mode (only hangs are judged); files = additionally require, once the
+// faults have healed and background work has settled, that storage holds nothing but the live
+// tables, one journal and the current manifest (C07 / C11 "no residue").
+func runFaultsOpts(c *ECase, strict, files bool) (st eStats, err error) {
 	defer func() {
 		if x := recover(); x != nil {
 			err = fmt.Errorf("panic: %v", x)
@@ -195,6 +232,7 @@ func runFaultsMode(c *ECase, strict bool) (st eStats, err error) {
 	}()
 	o := c.Opts.Build(c.Cmp)
 	fs := vfs.New()
+	dbgFS = fs
 	ctl := &callCtl{strict: strict, fs: fs, grace: 25 * time.Second, bound: 0}
 	if strict {
 		ctl.grace, ctl.bound = 3*time.Second, 12*time.Second
@@ -203,6 +241,7 @@ func runFaultsMode(c *ECase, strict bool) (st eStats, err error) {
 		}
 	}
 	defer func() {
+		st.slowInfo = ctl.slowInfo
 		if strict {
 			// C09 decides only whether calls return; contents are C08's business
 			err = ctl.hangErr
@@ -359,6 +398,67 @@ func runFaultsMode(c *ECase, strict bool) (st eStats, err error) {
 					return st, nil
 				}
 			}
+		case "setro":
+			if tr == nil {
+				if !ctl.do("SetReadOnly", func() { db.SetReadOnly() }) {
+					st.hung = true
+					return st, nil
+				}
+			}
+		case "bigtr":
+			// a transaction spanning several internal flushes, committed at once
+			if tr != nil {
+				continue
+			}
+			var terr error
+			var t *leveldb.Transaction
+			if !ctl.do("OpenTransaction", func() { t, terr = db.OpenTransaction() }) {
+				st.hung = true
+				return st, nil
+			}
+			if terr != nil {
+				continue
+			}
+			b := newBatch()
+			wb := o.GetWriteBuffer()
+			if wb > 4096 {
+				wb = 4096
+			}
+			failed := false
+			for j, bo := range op.B {
+				k := key(bo.K)
+				val := gen.VSpec{Len: wb/2 + 40, Fill: j % 2}.Bytes(fmt.Sprintf("%d.%d", i, j))
+				var werr error
+				if !ctl.do("Transaction.Put", func() { werr = t.Put(k, val, nil) }) {
+					st.hung = true
+					return st, nil
+				}
+				if werr != nil {
+					failed = true
+					break
+				}
+				b.Ops = append(b.Ops, model.BOp{K: string(k), V: string(val)})
+			}
+			if !failed {
+				issued = append(issued, b)
+				var cerr error
+				if !ctl.do("Transaction.Commit", func() { cerr = t.Commit() }) {
+					st.hung = true
+					return st, nil
+				}
+				if cerr == nil {
+					b.Mandatory = true
+				} else {
+					st.failedWrites++
+					failed = true
+				}
+			}
+			if failed {
+				if !ctl.do("Transaction.Discard", func() { t.Discard() }) {
+					st.hung = true
+					return st, nil
+				}
+			}
 		case "reopen":
 			if tr != nil {
 				tr, trBatch = nil, nil
@@ -443,8 +543,13 @@ func runFaultsMode(c *ECase, strict bool) (st eStats, err error) {
 			return nil, nil, errHung
 		}
 		if serr != nil {
-			// reads may fail; then nothing is asserted about the contents here
 			st.readErrors++
+			if strings.HasPrefix(what, "after close and reopen") {
+				// all failures have stopped and the DB was reopened: data that cannot be read any
+				// more is lost
+				return nil, nil, fmt.Errorf("%s (faults fired: %v): the DB can no longer be read: %v", what, describeFired(st.fired), serr)
+			}
+			// reads may fail while the DB is still in its error state
 			return nil, nil, nil
 		}
 		R := map[string]string{}
@@ -460,7 +565,14 @@ func runFaultsMode(c *ECase, strict bool) (st eStats, err error) {
 	}
 	if db != nil {
 		// let retried background work finish on the healed storage
-		ctl.do("VerifWaitIdle", func() { db.VerifWaitIdle() })
+		var ierr error
+		ctl.do("VerifWaitIdle", func() { ierr = db.VerifWaitIdle() })
+		if files && ierr == nil && !st.hung {
+			if msg := residue(db, fs); msg != "" {
+				return st, fmt.Errorf("after the faults healed and background work settled (faults fired: %v): %s", describeFired(fs.Fired()), msg)
+			}
+			st.fileChecks++
+		}
 		if _, _, err := scan("after the faults healed"); err != nil {
 			if err == errHung {
 				return st, nil
@@ -482,6 +594,16 @@ func runFaultsMode(c *ECase, strict bool) (st eStats, err error) {
 		return st, fmt.Errorf("reopening on the healed storage failed (faults fired: %v): %v", describeFired(st.fired), oerr)
 	}
 	st.reopened = true
+	if files {
+		var ierr error
+		ctl.do("VerifWaitIdle", func() { ierr = db.VerifWaitIdle() })
+		if ierr == nil && !st.hung {
+			if msg := residue(db, fs); msg != "" {
+				return st, fmt.Errorf("after close and reopen on the healed storage (faults fired: %v): %s", describeFired(st.fired), msg)
+			}
+			st.fileChecks++
+		}
+	}
 	_, m, err := scan("after close and reopen on the healed storage")
 	if err != nil {
 		if err == errHung {
@@ -590,6 +712,35 @@ func runFaultsMode(c *ECase, strict bool) (st eStats, err error) {
 	return st, nil
 }
 
+// residue lists what storage holds beyond the live tables, one journal and the current manifest.
+func residue(db *leveldb.DB, fs *vfs.FS) string {
+	live := map[int64]bool{}
+	for _, t := range db.VerifTables() {
+		live[t.Num] = true
+	}
+	journals := 0
+	for _, fd := range fs.Files() {
+		switch fd.Type {
+		case storage.TypeTable:
+			if !live[fd.Num] {
+				return fmt.Sprintf("table file %d is in storage but not part of the live table set (left behind)", fd.Num)
+			}
+		case storage.TypeJournal:
+			journals++
+		case storage.TypeManifest:
+			if fd != fs.Meta() {
+				return fmt.Sprintf("manifest %d is in storage next to the current manifest %d", fd.Num, fs.Meta().Num)
+			}
+		case storage.TypeTemp:
+			return fmt.Sprintf("temporary file %d left in storage", fd.Num)
+		}
+	}
+	if journals > 1 {
+		return fmt.Sprintf("%d journal files in storage at rest", journals)
+	}
+	return ""
+}
+
 func describeFired(f []vfs.LogEntry) string {
 	m := map[string]int{}
 	for _, e := range f {
@@ -613,7 +764,17 @@ func drawECase(t *rapid.T, excluded map[string]bool) *ECase {
 	c.Cmp = rapid.SampledFrom([]string{"bytewise", "bytewise", "inv"}).Draw(t, "cmp")
 	c.Keys = gen.DrawKeyPool(t, 3, 20)
 	nk := len(c.Keys)
-	kinds := []string{"put", "put", "put", "put", "put", "put", "put", "del", "del", "batch", "batch", "bigbatch", "get", "get", "compact", "reopen", "tropen", "trcommit", "trdiscard"}
+	kinds := []string{"put", "put", "put", "put", "put", "put", "put", "del", "del", "batch", "batch", "bigbatch", "get", "get", "compact", "reopen", "tropen", "trcommit", "trdiscard", "bigtr"}
+	deep := rapid.IntRange(0, 2).Draw(t, "deep") == 0
+	if deep {
+		// many small tables over several levels, lots of tombstones
+		c.Opts.WriteBuffer, c.Opts.TableSize, c.Opts.TotalSize, c.Opts.TotalSizeMult = 256, 512, 1024, 2
+		c.Opts.L0Trigger, c.Opts.L0Slowdown, c.Opts.L0Pause = 2, 6, 8
+		kinds = []string{"put", "put", "put", "put", "put", "put", "del", "del", "del", "batch", "get", "compact", "reopen", "bigtr"}
+	}
+	if rapid.IntRange(0, 7).Draw(t, "setro") == 0 {
+		kinds = append(kinds, "setro")
+	}
 	og := rapid.Custom(func(t *rapid.T) dbm.Op {
 		op := dbm.Op{T: rapid.SampledFrom(kinds).Draw(t, "op")}
 		op.Sync = rapid.IntRange(0, 2).Draw(t, "sync") == 0
@@ -621,6 +782,14 @@ func drawECase(t *rapid.T, excluded map[string]bool) *ECase {
 		case "put":
 			op.K = rapid.IntRange(0, nk-1).Draw(t, "k")
 			op.V = gen.DrawVSpec(t, "v", false, 2200)
+			if rapid.IntRange(0, 39).Draw(t, "huge") == 0 {
+				op.V = gen.VSpec{Len: 40000, Fill: 1} // a journal record spanning two 32 KiB blocks
+			}
+		case "bigtr":
+			n := rapid.IntRange(4, 14).Draw(t, "trn")
+			for j := 0; j < n; j++ {
+				op.B = append(op.B, dbm.BOp{K: rapid.IntRange(0, nk-1).Draw(t, "bk")})
+			}
 		case "del", "get":
 			op.K = rapid.IntRange(0, nk-1).Draw(t, "k")
 		case "batch":
@@ -648,7 +817,11 @@ func drawECase(t *rapid.T, excluded map[string]bool) *ECase {
 		return op
 	})
 	span := rapid.SampledFrom([]int{8, 20, 40, 70}).Draw(t, "minops")
-	c.Ops = rapid.SliceOfN(og, span, 110).Draw(t, "ops")
+	maxOps := 110
+	if deep {
+		span, maxOps = span+60, 260
+	}
+	c.Ops = rapid.SliceOfN(og, span, maxOps).Draw(t, "ops")
 	fg := rapid.Custom(func(t *rapid.T) vfs.Fault {
 		f := vfs.Fault{Kind: rapid.SampledFrom(faultKinds).Draw(t, "fk"), FType: rapid.SampledFrom(faultTypes).Draw(t, "ft")}
 		f.Nth = rapid.IntRange(1, 12).Draw(t, "nth")
@@ -758,5 +931,5 @@ func TestC08(t *testing.T) {
 
 // runFaultsFor dispatches to the fault engine of the given property.
 func runFaultsFor(prop string, c *ECase) (eStats, error) {
-	return runFaultsMode(c, prop == "C09")
+	return runFaultsOpts(c, prop == "C09", prop == "C07" || prop == "C11")
 }
